@@ -16,7 +16,9 @@ system (src/reuse/cli/annotate.py, src/reuse/_annotate.py):
 
 The model is the behaviour after the repair `fixes/annotate-no-empty-license.diff`
 (a sibling this invocation created is removed again when the step fails) and
-`fixes/annotate-skip-symlinks.diff` (a symbolic link is never the written path).
+`fixes/annotate-skip-symlinks.diff` (a symbolic link is never the written path) and
+`fixes/annotate-dangling-license-link.diff` (a dangling link at the `.license` position makes
+the file fail instead of being written through).
 -/
 import ReuseVerif.Model.Fs
 
@@ -133,6 +135,11 @@ def guarded (fs : Fs) (t : Path) (k : Fs → Fs × Bool) : Fs × Bool :=
   let r := k (if created then Fs.create fs t else fs)
   (if r.2 && created then Fs.unlink r.1 t else r.1, r.2)
 
+/-- `guarded` at a `.license` position: a symbolic link found there (necessarily a dangling one,
+    `all_paths` has dropped the others) makes the file fail; nothing is written through it. -/
+def guardedNoLink (fs : Fs) (t : Path) (k : Fs → Fs × Bool) : Fs × Bool :=
+  if Fs.isLink fs t then (fs, true) else guarded fs t k
+
 /-- the tail of `add_header_to_file` once the written path `t` is known: read, `--skip-existing`,
     `try` header `except CommentCreateError, MissingReuseInfoError` / `else` write -/
 def writeHeader (env : Env) (a : Args) (t : Path) (fs : Fs) : Fs × Bool :=
@@ -147,7 +154,7 @@ def writeHeader (env : Env) (a : Args) (t : Path) (fs : Fs) : Fs × Bool :=
 def addHeader (env : Env) (a : Args) (t1 : Path) (fs : Fs) : Fs × Bool :=
   let unknown := (effStyle env a t1).isNone
   if unknown && a.skipUnrec then (fs, false)
-  else if unknown && a.fallbackDot then guarded fs (licSuffix t1) (writeHeader env a (licSuffix t1))
+  else if unknown && a.fallbackDot then guardedNoLink fs (licSuffix t1) (writeHeader env a (licSuffix t1))
   else writeHeader env a t1 fs
 
 def useSibling (env : Env) (a : Args) (p : Path) : Bool :=
@@ -155,7 +162,7 @@ def useSibling (env : Env) (a : Args) (p : Path) : Bool :=
 
 /-- one iteration of the loop in `annotate` -/
 def step (env : Env) (a : Args) (fs : Fs) (p : Path) : Fs × Bool :=
-  if useSibling env a p then guarded fs (licSuffix p) (addHeader env a (licSuffix p))
+  if useSibling env a p then guardedNoLink fs (licSuffix p) (addHeader env a (licSuffix p))
   else addHeader env a p fs
 
 /-- the loop: `result += add_header_to_file(...)` -/
